@@ -107,3 +107,78 @@ Theorem C01_real_exponential_satisfies_the_laws :
     & forall m n (A : 'M[R]_m) (B : 'M[R]_n) (P : 'M[R]_(m, n)), A *m P = P *m B -> mexp A *m P = P *m mexp B].
 Proof. exact: real_mexp_laws. Qed.
 Print Assumptions C01_real_exponential_satisfies_the_laws.
+
+(* ------------------------------------------------------------------------------------------------
+   The MODEL's moment function (model/PhaseType.v [accumulate_raw], the Gallina transcription of
+   PhaseTypeDistribution._accumulate: build the (k+1)n x (k+1)n Van Loan block matrix from the
+   regularised generator lam * S and the reward vectors, call the matrix-exponential backend once per
+   epoch traversed, read the top-right n x n block, contract with alpha and 1, multiply by k! and by
+   the regularisation power), run over the real numbers (analysis/DenotePhaseType.v).
+
+   The backend is a parameter [expm] of the model; its contract is "on a well-formed n x n list
+   matrix, return a well-formed n x n list matrix denoting the real matrix exponential mexp".
+   [expm_ideal] (analysis/CdfFacts.v) meets the contract, which gives hypothesis-free statements;
+   the general forms (suffix _any_sound_backend) hold for every backend meeting the contract.
+
+   C01_model_accumulate_is_van_loan_functional.  In one epoch with generator Slast (n x n list
+   matrix), reward vectors Rs (k of them, each of size n), initial vector alpha and ANY regularisation
+   factor lam <> 0, the model returns at time t exactly
+        k! * alpha * (top-right block of  mexp (t * VanLoan(S; diag Rs_0, ..., diag Rs_(k-1))))  * 1
+   - k! times the functional [mk] of proofs/ExpLaws.v, to which C01_moments_transfer_along_lumping_real
+   and C09/C11/C12 apply - computed from the UN-regularised generator.
+
+   C01_model_regularisation_parameter_irrelevant.  For any demography (any number of epochs), any
+   order k, any times, two non-zero regularisation factors give the same list of moments. *)
+From Coq Require Import QArith Qreals.
+From PG Require Import base.Ops base.OpsR model.CoalModels model.Matrix model.PhaseType
+                       analysis.Denote analysis.CdfFacts analysis.DenotePhaseType.
+(* QArith rebinds the keys %Q and %N; restore the mathcomp convention %N = nat_scope, use %QQ for Q *)
+Delimit Scope Q_scope with QQ.
+Delimit Scope nat_scope with N.
+Local Open Scope ring_scope.
+
+Theorem C01_model_accumulate_is_van_loan_functional :
+  forall (n k : nat) (Slast Rs : seq (seq R)) (alpha : seq R) (lam : R) (t : Q),
+    lam <> 0 -> wf n n Slast -> (forall i, (i < k)%N -> size (nth [::] Rs i) = n) ->
+    accumulate_raw OpsR expm_ideal k [::] Slast Rs alpha lam [:: t] =
+    [:: IZR (fact_Z k) *
+        mk (fun n : nat => @mexp n) (rv_of n alpha) (mx_of n n Slast)
+           (fun i => diag_mx (rv_of n (nth [::] Rs i))) k (Q2R t) ord0 ord0].
+Proof. exact: (accumulate_is_mk expm_ideal_sound). Qed.
+Print Assumptions C01_model_accumulate_is_van_loan_functional.
+
+Theorem C01_model_accumulate_is_van_loan_functional_any_sound_backend :
+  forall expm : seq (seq R) -> seq (seq R),
+    (forall n A, wf n n A -> wf n n (expm A) /\ mx_of n n (expm A) = mexp (mx_of n n A)) ->
+  forall (n k : nat) (Slast Rs : seq (seq R)) (alpha : seq R) (lam : R) (t : Q),
+    lam <> 0 -> wf n n Slast -> (forall i, (i < k)%N -> size (nth [::] Rs i) = n) ->
+    accumulate_raw OpsR expm k [::] Slast Rs alpha lam [:: t] =
+    [:: IZR (fact_Z k) *
+        mk (fun n : nat => @mexp n) (rv_of n alpha) (mx_of n n Slast)
+           (fun i => diag_mx (rv_of n (nth [::] Rs i))) k (Q2R t) ord0 ord0].
+Proof. exact: accumulate_is_mk. Qed.
+Print Assumptions C01_model_accumulate_is_van_loan_functional_any_sound_backend.
+
+Theorem C01_model_regularisation_parameter_irrelevant :
+  forall (n k : nat) (Ss : seq (Q * seq (seq R))) (Slast Rs : seq (seq R)) (alpha : seq R)
+         (lam1 lam2 : R) (ts : seq Q),
+    lam1 <> 0 -> lam2 <> 0 ->
+    List.Forall (fun x : Q * seq (seq R) => wf n n x.2) Ss -> wf n n Slast ->
+    (forall i, (i < k)%N -> size (nth [::] Rs i) = n) ->
+    accumulate_raw OpsR expm_ideal k Ss Slast Rs alpha lam1 ts =
+    accumulate_raw OpsR expm_ideal k Ss Slast Rs alpha lam2 ts.
+Proof. exact: (accumulate_lam_irrelevant expm_ideal_sound). Qed.
+Print Assumptions C01_model_regularisation_parameter_irrelevant.
+
+Theorem C01_model_regularisation_parameter_irrelevant_any_sound_backend :
+  forall expm : seq (seq R) -> seq (seq R),
+    (forall n A, wf n n A -> wf n n (expm A) /\ mx_of n n (expm A) = mexp (mx_of n n A)) ->
+  forall (n k : nat) (Ss : seq (Q * seq (seq R))) (Slast Rs : seq (seq R)) (alpha : seq R)
+         (lam1 lam2 : R) (ts : seq Q),
+    lam1 <> 0 -> lam2 <> 0 ->
+    List.Forall (fun x : Q * seq (seq R) => wf n n x.2) Ss -> wf n n Slast ->
+    (forall i, (i < k)%N -> size (nth [::] Rs i) = n) ->
+    accumulate_raw OpsR expm k Ss Slast Rs alpha lam1 ts =
+    accumulate_raw OpsR expm k Ss Slast Rs alpha lam2 ts.
+Proof. exact: accumulate_lam_irrelevant. Qed.
+Print Assumptions C01_model_regularisation_parameter_irrelevant_any_sound_backend.
